@@ -159,6 +159,13 @@ var c12Extra = []struct {
 	{"distinct-star-duplicates", "SELECT DISTINCT * FROM (SELECT b, 'x' AS k FROM t) AS d", false, false},
 	{"union-async", "SELECT ASYNC.HMID(a) AS m FROM t UNION ALL SELECT a AS m FROM t", false, true},
 	{"async-nested-from-filtered", "SELECT ASYNC.HMID(a) AS m, id FROM m WHERE HFAST(a) > 0", false, true},
+	// a deferred item that resolves to a marker in front of other deferred items
+	{"await-marker-then-async", "SELECT AWAIT(SETVAR('k', a)) AS s, ASYNC.HMID(a) AS e, b FROM t", false, true},
+	{"await-fuse-then-await", "SELECT AWAIT(FUSE(o)) AS f, AWAIT(b) AS w, AWAIT(a) AS x FROM t", false, false},
+	{"await-report-then-getvar", "SELECT AWAIT(REPORT_WHEN(a > 1, 'seen')) AS r, AWAIT(GETVAR('k')) AS g, id FROM t", false, false},
+	// deferred work below two levels of query copies: three array dimensions, a join inside a join side
+	{"async-nested-from-3d", "SELECT ASYNC.HMID(a) AS e, id FROM cube", false, true},
+	{"async-three-way-join", "SELECT * FROM (SELECT ASYNC.HMID(a) AS e, b FROM t) x JOIN u y ON x.b = y.b JOIN u z ON y.b = z.b", true, false},
 	{"union-async-both", "SELECT ASYNC.HMID(a) AS m, id FROM t UNION SELECT ASYNC.HFAST(a) AS m, id FROM t", false, true},
 }
 
@@ -239,6 +246,7 @@ func c12Docs() []func() map[string]any {
 				"u": []any{map[string]any{"b": "x", "c": 2.0}, map[string]any{"b": "y", "c": 3.0}, map[string]any{"b": "x", "c": 1.0}},
 				"m": []any{[]any{row(0, 1, "x", 1)}, []any{row(1, 2, "y"), row(2, 3, "x", 4)}},
 				"w": manyGroups(),
+				"cube": []any{[]any{[]any{row(0, 1, "x", 1)}, []any{row(1, 2, "y")}}},
 			}
 		},
 		func() map[string]any {
